@@ -867,6 +867,91 @@ func (h *c15hist) opZero(x *c15key) {
 
 // opZeroFresh zeroes a master key nobody has looked at yet, so that its
 // public key has never been cached.
+// opColdChain: a fresh private key and up to three keys derived from it are
+// created back to back WITHOUT being looked at (no String, no derivation
+// observation: every cache is cold, nothing lazy has been materialised), then
+// one of them is zeroed, and only then are the others observed.  What a key is
+// must not depend on whether somebody looked at it before its relatives died.
+func (h *c15hist) opColdChain() {
+	c, r := h.c, h.r
+	if len(h.pool)+4 > c15PoolMax+4 {
+		return
+	}
+	x := c15randomRef(r, false)
+	for tries := 0; !x.IsPrivate() && tries < 8; tries++ {
+		x = c15randomRef(r, false)
+	}
+	if !x.IsPrivate() {
+		return
+	}
+	if x.Depth > 250 {
+		x.Depth = 250
+	}
+	version := append([]byte(nil), x.Version[:]...)
+	key, chain, fp := c15pad32(x.Priv), append([]byte(nil), x.ChainCode[:]...), append([]byte(nil), x.ParentFP[:]...)
+	var k *hdkeychain.ExtendedKey
+	if !c.Call("NewExtendedKey", func() string { return "cold chain root" }, func() {
+		k = hdkeychain.NewExtendedKey(version, key, chain, fp, x.Depth, x.ChildNum, true)
+	}) || k == nil {
+		h.broken = true
+		return
+	}
+	root := &c15key{k: k, origin: "NewExtendedKey", how: fmt.Sprintf("NewExtendedKey(cold, depth=%d)", x.Depth), obsIdx: c15obsIdx(r)}
+	root.setRef(x)
+	root.deriveChild()
+	chainKeys := []*c15key{root}
+	h.add(root)
+	h.note("cold: NewExtendedKey -> key#%d", root.n)
+	for step := 1 + r.Intn(3); step > 0 && !h.broken; step-- {
+		cur := chainKeys[len(chainKeys)-1]
+		var nk *hdkeychain.ExtendedKey
+		var nref *ref.XKey
+		var err error
+		how := ""
+		if cur.ref.IsPrivate() && r.Chance(1, 4) {
+			pubVer, known := c15privToPub[cur.ref.Version]
+			if !known {
+				break
+			}
+			if !c.Call("Neuter", func() string { return cur.how }, func() { nk, err = cur.k.Neuter() }) {
+				h.broken = true
+				return
+			}
+			nref, how = cur.ref.Neuter(pubVer), fmt.Sprintf("Neuter of key#%d (cold)", cur.n)
+		} else {
+			i := c15index(r, cur.ref.IsPrivate() && r.Chance(2, 3))
+			var rerr error
+			nref, rerr = cur.ref.Child(i)
+			if rerr != nil {
+				break
+			}
+			if !c.Call("Child", func() string { return cur.how }, func() { nk, err = cur.k.Child(i) }) {
+				h.broken = true
+				return
+			}
+			how = fmt.Sprintf("Child(%d) of key#%d (cold)", i, cur.n)
+		}
+		if err != nil || nk == nil {
+			h.broken = true
+			c.Failf("Child/error", "%s failed: %v\nhistory: %s", how, err, h.trace())
+			return
+		}
+		e := &c15key{k: nk, origin: "Child", from: cur, how: how, obsIdx: c15obsIdx(r)}
+		e.setRef(nref)
+		e.deriveChild()
+		h.add(e)
+		chainKeys = append(chainKeys, e)
+		h.note("cold: %s -> key#%d", how, e.n)
+	}
+	c.Inc("op_cold_chain")
+	// zero one key of the chain (not the last: it has descendants to be looked at)
+	victim := chainKeys[r.Intn(len(chainKeys))]
+	if len(chainKeys) > 1 {
+		victim = chainKeys[r.Intn(len(chainKeys)-1)]
+	}
+	h.opZero(victim)
+}
+
 func (h *c15hist) opZeroFresh() {
 	c, r := h.c, h.r
 	seed := r.Bytes(r.Range(hdkeychain.MinSeedBytes, hdkeychain.MaxSeedBytes))
@@ -1004,8 +1089,10 @@ func c15historyCase(c *vf.Ctx, i int) {
 			h.opSetNet(x)
 		case op < 86:
 			h.opZero(x)
-		case op < 88:
+		case op < 87:
 			h.opZeroFresh()
+		case op < 88:
+			h.opColdChain()
 		default:
 			h.opRead(x, (op-88)%3)
 		}
